@@ -26,6 +26,7 @@ let () = Drv_req.install_listing register get geti getb
 let () = Drv_req.install_lin register get
 let () = Drv_req.install_ties register get
 let () = Drv_trace.install register get
+let () = Drv_fs.install register get
 
 let () =
   (try while true do
